@@ -41,7 +41,7 @@ instance instTransCmpBaseTy (ty : BaseTy) : TransCmp ty.cmp := by
   | uint8 => exact transCmp_of_eq _ (compareOn parseIntB) (fun a b => by simp [BaseTy.cmp, compareOn])
   | int32 => exact transCmp_of_eq _ (compareOn parseIntB) (fun a b => by simp [BaseTy.cmp, compareOn])
   | boolean =>
-    exact transCmp_of_eq _ (compareOn fun a : Bytes => (if a == bytesOfString "true" then 1 else 0 : Nat))
+    exact transCmp_of_eq _ (compareOn fun a : Bytes => (if a == ([116, 114, 117, 101] : Bytes) then 1 else 0 : Nat))
       (fun a b => by simp [BaseTy.cmp, compareOn])
   | enumeration items =>
     exact transCmp_of_eq _ (fun a b => compareOn (enumValue items) b a) (fun a b => by simp [BaseTy.cmp, compareOn])
